@@ -28,11 +28,17 @@ SPECIAL = [255, 256, 65535, 65536, 65537, 2 ** 24 - 1, 70000, 128, 129]
 
 def relabel(rng, a, hi):
     labs = [int(x) for x in np.unique(a) if x]
-    kind = rng.choice(["compact", "reverse", "random", "special"])
+    kind = rng.choice(["compact", "reverse", "random", "special", "mid16", "top24", "mid16", "top24"])
     if kind == "compact":
         new = list(range(1, len(labs) + 1))
     elif kind == "reverse":
         new = list(reversed(labs))
+    elif kind == "mid16" and hi >= 65535:
+        new = rng.sample(range(256, 65536), len(labs))
+    elif kind == "top24" and hi >= 2 ** 24 - 1:
+        new = rng.sample(range(2 ** 24 - 2000, 2 ** 24), len(labs))
+    elif kind in ("mid16", "top24"):
+        new = rng.sample(range(max(1, hi - 50), hi + 1), len(labs)) if hi - 50 >= len(labs) else labs
     elif kind == "random":
         new = rng.sample(range(1, hi + 1), len(labs)) if hi >= len(labs) else labs
     else:
@@ -54,7 +60,7 @@ def apply(a, mp, dt):
 def run(ctx):
     common.serial_pool()
     rng = ctx.rng
-    for _ in range(ctx.scale(160, 2000)):
+    for _ in range(ctx.scale(450, 4000)):
         it = rng.choice(["matched", "unmatched", "unmatched", "semantic"])
         p, r = impl.rand_pair(rng, max_side=6, max_inst=4, dtype="uint8")
         cfg = gen_cfg(rng, it)
